@@ -28,6 +28,8 @@ from fractions import Fraction
 VERIF = os.path.dirname(os.path.dirname(os.path.abspath(__file__)))
 LEAN_DIR = os.path.join(VERIF, "lean")
 REPO = os.environ.get("RTC_REPO", "/repo")
+# where evidence/ and replays/ are written (default /verif; trials against scratch trees set VERIF_OUT)
+OUT = os.environ.get("VERIF_OUT", VERIF)
 STD_AXIOMS = {"propext", "Classical.choice", "Quot.sound"}
 FORBIDDEN = re.compile(
     r"\bsorry\b|\badmit\b|^\s*axiom\s|native_decide|bv_decide|implemented_by|\bunsafe\s|maxHeartbeats\s+0\b",
@@ -483,8 +485,8 @@ class Check:
     # -- finish ----------------------------------------------------------------------------
     def finish(self):
         wall = time.time() - self.t0
-        os.makedirs(os.path.join(VERIF, "evidence"), exist_ok=True)
-        os.makedirs(os.path.join(VERIF, "replays"), exist_ok=True)
+        os.makedirs(os.path.join(OUT, "evidence"), exist_ok=True)
+        os.makedirs(os.path.join(OUT, "replays"), exist_ok=True)
         lean = self.lean
         nviol = len(self.failures)
         status = 0
@@ -493,7 +495,7 @@ class Check:
             lines.append("KNOWN-FINDING: property=%s %s %s" % (self.pid, fid, what))
         replay = None
         if self.failures:
-            replay = os.path.join(VERIF, "replays", "%s-seed%d.json" % (self.pid, self.seed))
+            replay = os.path.join(OUT, "replays", "%s-seed%d.json" % (self.pid, self.seed))
             json.dump(
                 {"property": self.pid, "seed": self.seed, "tier": self.tier, "kind": "failing-input",
                  "failures": [f for f in self.failures if f][:20],
@@ -503,7 +505,7 @@ class Check:
             lines.append("VIOLATION property=%s replay=%s" % (self.pid, replay))
             status = 1
         elif self.broken or self.disagreements:
-            replay = os.path.join(VERIF, "replays", "%s-seed%d.json" % (self.pid, self.seed))
+            replay = os.path.join(OUT, "replays", "%s-seed%d.json" % (self.pid, self.seed))
             json.dump(
                 {"property": self.pid, "seed": self.seed, "tier": self.tier, "kind": "no-failing-input-found",
                  "no_longer_checks": [{"name": n, "why": w} for n, w in self.broken[:40]],
@@ -545,7 +547,7 @@ class Check:
             "wall_s": round(wall, 2),
             "violations": nviol if status else 0,
         }
-        json.dump(ev, open(os.path.join(VERIF, "evidence", self.pid + ".json"), "w"), indent=1)
+        json.dump(ev, open(os.path.join(OUT, "evidence", self.pid + ".json"), "w"), indent=1)
         for l in lines:
             print(l)
         print(
